@@ -285,9 +285,11 @@ func (s *Server) IsClosed() bool {
 
 // Shut down the server. Server cannot be restarted once it is closed.
 func (s *Server) Close() error {
-	for _, _socket := range s.Sockets() {
-		socket := _socket.(*serverSocket)
-		socket.onClose(ReasonServerShuttingDown)
+	for _, nsp := range s.namespaces.getAll() {
+		for _, _socket := range nsp.Sockets() {
+			socket := _socket.(*serverSocket)
+			socket.onClose(ReasonServerShuttingDown)
+		}
 	}
 	return s.eio.Close()
 }
